@@ -48,7 +48,7 @@ CHECKS["C14"] = {
     "crash_is_violation": True,
     "unconfirmed_is_violation": True,
     "replay_times": 2,
-    "env": {"DEADLOCK_DETECTION_ENABLED": "true", "DEADLOCK_TIMEOUT_SECONDS": "60", "GORACE": "halt_on_error=0"},
+    "env": {"DEADLOCK_DETECTION_ENABLED": "true", "DEADLOCK_TIMEOUT_SECONDS": "300", "GORACE": "halt_on_error=0"},
     "runs": [{"test": "TestC14", "shards_quick": 12, "checks_quick": 6, "shards_thorough": 16, "checks_thorough": 120, "args": ["-rapid.shrinktime", "1s"]},
              {"test": "TestC14MidCycle", "shards_quick": 4, "checks_quick": 150, "shards_thorough": 16, "checks_thorough": 1500}],
     "rule": "runs of the real asynchronous stack (entry point: scheduling loop, three RM event handler goroutines, RM proxy, timers, quota preemption loop, event system) built with the race "
